@@ -380,6 +380,8 @@ def r7_4(ctx):
                     dangerous = "exception text"
                 elif isinstance(h, ast.Name) and h.id in raw_vars:
                     dangerous = "raw command text"
+                elif _is_command_object(p, fi, h):
+                    dangerous = "the whole command object (its __str__ renders every argument raw, including names given as literals)"
                 elif isinstance(h, ast.Attribute) and h.attr in ("command",) and isinstance(base, ast.Name) and base.id in ("pop3_cmd",):
                     dangerous = None  # POP3 command word: split on whitespace by the parser
                 if dangerous is None:
@@ -395,6 +397,59 @@ def r7_4(ctx):
                     n.lineno,
                 )
     ctx.floor("R7.4", sites, 5, "one-line response holes fed by exception / raw text")
+
+
+def _is_command_object(p, fi, h) -> bool:
+    """`{cmd}` / `{str(cmd)}` where cmd is an IMAPClientCommand (annotation-based typing)."""
+    e = h
+    if isinstance(e, ast.Call) and isinstance(e.func, ast.Name) and e.func.id in ("str", "repr") and e.args:
+        e = e.args[0]
+    if isinstance(e, ast.FormattedValue):
+        e = e.value
+    if not isinstance(e, ast.Name):
+        return False
+    try:
+        ts = typer(p).expr_type(e, env_of(p, fi))
+    except Exception:  # noqa: BLE001
+        ts = []
+    return "IMAPClientCommand" in ts
+
+
+def r7_6(ctx):
+    """Flags are printed raw (unquoted, space separated, inside parentheses) by every emitter.  That is well-formed only
+    because the parser admits nothing but atoms as flag names: _p_flag must take the name through _atom_re, and _atom_re must
+    not match any of the characters that would break the list syntax."""
+    from .. import regexlang as rl
+
+    p = ctx.p
+    fi = p.func("parse.IMAPClientCommand._p_flag")
+    ctx.analysed(fi)
+    bad = []
+    n = 0
+    for c in calls_in(fi.node):
+        nm = call_name(c)
+        if not nm.startswith("_p_"):
+            continue
+        n += 1
+        if nm == "_p_simple_string":
+            continue
+        if nm == "_p_re" and c.args and norm(c.args[0]) == "_atom_re":
+            continue
+        bad.append(c)
+    ctx.floor("R7.6", n, 2, "parser helper calls in _p_flag")
+    if bad:
+        ctx.bad("R7.6", fi.module, fi.qual, norm(bad[0]), f"a flag name is read with {call_name(bad[0])}() instead of the atom pattern: quoted strings and literals become keywords (`todo)`, `follow up`) and every emitter prints them raw - FETCH FLAGS (...) and the * FLAGS line of SELECT then have unbalanced parentheses or split one keyword in two", bad[0].lineno)
+    else:
+        ctx.ok("R7.6", where(fi), "flag names are read through _atom_re only")
+    from .c08 import _regex_const
+
+    pat = _regex_const(p, "_atom_re")
+    ctx.require(isinstance(pat, str), "parse._atom_re is not a constant pattern", anchor=True)
+    leaks = [ch for ch in '() "{\r\n' if rl.can_match_char(pat, ch)] + [ch for ch in ("\r", "\n") if rl.can_match_char(pat, ch)]
+    if leaks:
+        ctx.bad("R7.6", "parse", "<module>", f"_atom_re admits {leaks!r}", f"the atom pattern admits list-syntax characters {leaks!r}: a keyword containing one breaks every response that lists flags", 0)
+    else:
+        ctx.ok("R7.6", "parse:<module>", f"_atom_re = /{pat}/ admits none of ( ) space quote brace CR LF")
 
 
 def r7_5(ctx):
@@ -469,5 +524,6 @@ def run(ctx):
     ctx.do(r7_3)
     ctx.do(r7_4)
     ctx.do(r7_5)
+    ctx.do(r7_6)
     for k, v in ACCEPTED_UNKNOWN.items():
         ctx.trust(f"frozen relay entry: {k} - {v}")
